@@ -363,7 +363,7 @@ def explore(ctx, repo, w):
                                 ok = outcome == "ok" and rel == 0 and acq == 0
                                 ng = (depth - 1, mode, phys)
                                 ctx.check("K8-release-once", where, ok, "nested unlock releases nothing: " + desc, construct=desc)
-                        if ng is not None and ok and ng[0] <= DEPTH:
+                        if ng is not None and ok and ng[0] <= (DEPTH + 3 if ctx.tier == "thorough" else DEPTH):
                             k = key(o2, ng)
                             if k not in seen:
                                 seen[k] = True
